@@ -445,6 +445,24 @@ func runC02(r *ev.Run) {
 	c02CounterLimit(r)
 	runC02Channel(r)
 	runC02Swarm(r)
+	// "authentic peer" across rotation: a channel bound to one key must not hand out plaintexts of another party that runs a
+	// complete handshake of its own on it (as initiator, or as the one answering the channel's rekey), whatever the predicate
+	// thinks of that party's key.
+	if r.Batch == 0 {
+		verifhook.EnableSink(true)
+		okKey, otherOK := keyN(31), keyN(34)
+		for _, pd := range predicates(okKey, keyN(32)) {
+			if !pd.fn(&otherOK.Pub) || pd.name == "reject-all" {
+				continue
+			}
+			for _, attack := range []string{"foreign-initiates", "foreign-answers-rekey", "foreign-answers-rekey-with-data"} {
+				caseID := fmt.Sprintf("bound-%s-%s", pd.name, attack)
+				if r.Want(caseID) {
+					c05BoundAs(r, g.Fork(), caseID, pd, attack, "other-accepted-key", okKey, otherOK, "C02")
+				}
+			}
+		}
+	}
 }
 
 // runC02Swarm: the same property at the layer applications use. p2pkeswarm nodes over a transport that replays datagrams;
